@@ -449,6 +449,60 @@ def _run_stack_spy(case, ctx):
 # ---------------------------------------------------------------------------------
 # reference interpreter
 # ---------------------------------------------------------------------------------
+class RefDetrend:
+    """own least-squares polynomial detrender (numpy only): trend fitted on positions counted from the first training time point; new data
+    re-estimate it only when parameters are updated"""
+
+    def __init__(self, degree):
+        self.degree = degree
+
+    def _refit(self):
+        ts = sorted(self.seen)
+        x = np.array([t - self.t0 for t in ts], dtype=float)
+        v = np.array([self.seen[t] for t in ts], dtype=float)
+        self.coef = np.polyfit(x, v, self.degree) if self.degree > 0 else np.array([v.mean()])
+
+    def _trend(self, index):
+        return np.polyval(self.coef, np.array([int(t) - self.t0 for t in index], dtype=float))
+
+    def fit_transform(self, z):
+        self.t0 = int(z.index[0])
+        self.seen = {int(t): float(v) for t, v in zip(z.index, z.values)}
+        self._refit()
+        return self.transform(z)
+
+    def transform(self, z):
+        return pd.Series(np.asarray(z, dtype=float) - self._trend(z.index), index=z.index)
+
+    def inverse_transform(self, z):
+        return pd.Series(np.asarray(z, dtype=float) + self._trend(z.index), index=z.index)
+
+    def update(self, z, update_params=True):
+        self.seen.update({int(t): float(v) for t, v in zip(z.index, z.values)})
+        if update_params:
+            self._refit()
+
+
+class RefLog:
+    def fit_transform(self, z):
+        return self.transform(z)
+
+    def transform(self, z):
+        return pd.Series(np.log(np.asarray(z, dtype=float)), index=z.index)
+
+    def inverse_transform(self, z):
+        return pd.Series(np.exp(np.asarray(z, dtype=float)), index=z.index)
+
+
+def _ref_transformer(t):
+    """own implementations where the definition is two lines; the package's transformer otherwise (its own behaviour is C13's business)"""
+    if t[0] == "detrend" and not t[1].get("default"):
+        return RefDetrend(t[1].get("degree", 1))
+    if t[0] == "log":
+        return RefLog()
+    return zoo.build_transformer(t)
+
+
 class Ref:
     """independent semantics of a composite spec, built from leaf estimators only"""
 
@@ -465,7 +519,7 @@ class Ref:
         elif k == "multiplex":
             self.member = Ref(s[2][s[1].get("selected", 0)]).fit(y, fh)
         elif k == "pipeline":
-            self.ts = [zoo.build_transformer(t) for t in s[2]]
+            self.ts = [_ref_transformer(t) for t in s[2]]
             yt = y
             for t in self.ts:
                 yt = t.fit_transform(yt)
@@ -514,7 +568,7 @@ class Ref:
         if k == "pipeline":
             p = self.final.predict(fh)
             for t in reversed(self.ts):
-                if not _has_tag(t, "skip-inverse-transform"):
+                if isinstance(t, (RefDetrend, RefLog)) or not _has_tag(t, "skip-inverse-transform"):
                     p = t.inverse_transform(p)
             return p
         if k == "stack":
